@@ -1,6 +1,7 @@
 import FlexVerif.Driver.Case
 import FlexVerif.Validator.Validate
 import FlexVerif.Driver.Trace
+import FlexVerif.Driver.TblCmd
 namespace FlexVerif
 
 def showLabel : Option (List Int) → String
@@ -42,6 +43,8 @@ def mainImpl (args : List String) : IO UInt32 := do
     for e in c.errors do IO.println s!"error {e}"
     if !c.errors.isEmpty then return 2
     cmdTrace c (rest.contains "--spec")
+  | "tbl-dump" :: path :: _ => cmdTblDump path
+  | "tbl-load" :: path :: key :: _ => cmdTblLoad path key
   | _ =>
     IO.eprintln "usage: fvdriver validate <case> [budget] | trace <case> [--spec]"
     return 2
